@@ -46,6 +46,7 @@ from explorerscript.ssb_converting.ssb_data_types import (
     SsbOpParamFixedPoint,
 )
 from explorerscript.util import open_utf8
+from explorerscript.ssb_converting.ssb_special_ops import OPS_WITH_JUMP_TO_MEM_OFFSET
 
 
 class SsbParamDict(TypedDict):
@@ -65,12 +66,20 @@ class RoutineDict(TypedDict):
     ops: list[OpDict]
 
 
-def build_ops(ops: list[SsbOperation]) -> list[OpDict]:
+def build_ops(ops: list[SsbOperation], positions: dict[int, int] | None = None) -> list[OpDict]:
+    """
+    positions maps the compiler's internal op offsets to the 1-based position of the op in the output,
+    counted across all routines. Jump targets are printed as these positions.
+    """
     out_ops: list[OpDict] = []
     for op in ops:
         out_op: OpDict = {"opcode": op.op_code.name, "params": []}
-        for param in op.params:
+        jump_idx = OPS_WITH_JUMP_TO_MEM_OFFSET.get(op.op_code.name) if positions is not None else None
+        for i, param in enumerate(op.params):
             if isinstance(param, int):
+                if i == jump_idx and positions is not None:
+                    # The internal offsets have gaps (removed jumps) and are not always in output order.
+                    param = positions.get(param, param)
                 out_op["params"].append(param)
             elif isinstance(param, SsbOpParamFixedPoint):
                 out_op["params"].append({"type": "FIXED_POINT", "value": param.value})
@@ -94,29 +103,35 @@ def build_routines_json(
     routine_infos: list[SsbRoutineInfo], named_coroutines: list[str], routine_ops: list[list[SsbOperation]]
 ) -> list[RoutineDict]:
     routines: list[RoutineDict] = []
+    positions: dict[int, int] = {}
+    position = 0
+    for r_ops in routine_ops:
+        for op in r_ops:
+            position += 1
+            positions.setdefault(op.offset, position)
     for info, name, ops in zip(routine_infos, named_coroutines, routine_ops):
         routine: RoutineDict
         if info.type == SsbRoutineType.COROUTINE:
-            routine = {"type": "COROUTINE", "name": name, "ops": build_ops(ops)}
+            routine = {"type": "COROUTINE", "name": name, "ops": build_ops(ops, positions)}
         elif info.type == SsbRoutineType.GENERIC:
-            routine = {"type": "GENERIC", "ops": build_ops(ops)}
+            routine = {"type": "GENERIC", "ops": build_ops(ops, positions)}
         elif info.type == SsbRoutineType.ACTOR:
             routine = {
                 "type": "ACTOR",
                 "target_id": info.linked_to if info.linked_to is not -1 else info.linked_to_name,
-                "ops": build_ops(ops),
+                "ops": build_ops(ops, positions),
             }
         elif info.type == SsbRoutineType.OBJECT:
             routine = {
                 "type": "OBJECT",
                 "target_id": info.linked_to if info.linked_to is not -1 else info.linked_to_name,
-                "ops": build_ops(ops),
+                "ops": build_ops(ops, positions),
             }
         elif info.type == SsbRoutineType.PERFORMER:
             routine = {
                 "type": "PERFORMER",
                 "target_id": info.linked_to if info.linked_to is not -1 else info.linked_to_name,
-                "ops": build_ops(ops),
+                "ops": build_ops(ops, positions),
             }
         else:
             raise ValueError(f"invalid routine type {info.type}")
